@@ -13,7 +13,8 @@ run_demo() { # $1 = build dir.  Conventions seen: run_demo.sh <build> [repo]; bu
     fi
     (cd $O && bash ./build_demo.sh $1 > $O/demo_build.log 2>&1) || (cd $O && bash ./build_demo.sh $1 $R > $O/demo_build.log 2>&1)
   fi
-  local exe=$(find $O -maxdepth 1 -type f -executable ! -name '*.sh' -newer $O/patch.diff | head -1)
+  local exe=$(find $O $1 -maxdepth 1 -type f -executable -name 'demo*' ! -name '*.sh' -newer $O/patch.diff | head -1)
+  if [ -z "$exe" ]; then exe=$(find $O -maxdepth 1 -type f -executable ! -name '*.sh' -newer $O/patch.diff | head -1); fi
   if [ -z "$exe" ]; then echo "no demo exe"; return 99; fi
   (cd $O && timeout 2400 $exe > $O/demo_run.log 2>&1); return $?
 }
